@@ -14,7 +14,7 @@ META = {
     "level": "exploration",
     "rule": ("case = {HUGR case (program AST, history?, metadata?), render configs}; distinct by JSON; non-trivial as "
              "for C01 (>= 6 nodes and an Ext/Dom/order/CF/static edge, poly call or insert_*)"),
-    "required": ["monitor:render", "monitor:nodes", "monitor:clusters", "monitor:edges", "monitor:labels",
+    "required": ["monitor:render", "monitor:render-default-config", "monitor:nodes", "monitor:clusters", "monitor:edges", "monitor:labels",
                  "monitor:unchanged", "monitor:config-independence", "feature:order-edge", "feature:cf-edge",
                  "feature:static-edge", "feature:metadata", "feature:ext-op-name", "monitor:parser-selftest"],
     "reach": ["hugr.hugr.render:DotRenderer.render", "hugr.hugr.render:DotRenderer._viz_node",
@@ -123,7 +123,13 @@ def check_render(ctx, h, case, stratum, configs):
     for pal, qual in configs:
         ctx.count("monitor:render")
         try:
-            src = h.render_dot(RenderConfig(PALETTE[pal], qual)).source
+            if pal is None:
+                # the default configuration (no config object): default palette, unqualified names
+                ctx.count("monitor:render-default-config")
+                src = h.render_dot().source
+                qual = False
+            else:
+                src = h.render_dot(RenderConfig(PALETTE[pal], qual)).source
         except Exception as e:  # noqa: BLE001
             bad("render-raises", [pal, qual], "renders", f"{type(e).__name__}: {str(e)[:200]}")
             return
@@ -253,11 +259,11 @@ def run(ctx):
         if r.random() < 0.15:
             case["hist"] = (case.get("hist") or []) + gen_history_on(r, 10, max_steps=8)
         cfgs = allcfg if not ctx.quick or i % 8 == 0 else [allcfg[0], r.choice(allcfg[1:])]
-        case["configs"] = [list(c) for c in cfgs]
+        case["configs"] = [list(c) for c in cfgs] + ([[None, False]] if i % 3 == 0 else [])
 
         def go():
             h, info = c02.build(case)
-            check_render(ctx, h, case, "render", cfgs)
+            check_render(ctx, h, case, "render", [tuple(c) for c in case["configs"]])
             return len(h)
 
         nn = ctx.guard("render", case, go)
